@@ -17,7 +17,8 @@
    * Python None (the lhs of an ADD, the rhs of a DELETE, the padding in the
      tuples of synchronize_xxx functions) is [none_node]; a YAML null element is also
      Python None, which is exactly why the unrepaired code confused them.
-   * `==` between two loaded nodes is [node_eq] (see there).
+   * `==` between two loaded nodes is [node_eq] (see there); values are compared
+     by Differ._same_data = [val_eq].
    * The per-path tables DifferConfig.rules / DifferConfig.keys are INPUT: the
      harness hands over the tables the real DifferConfig.prepare() resolved
      (node, parent, parentref, text); the lookups over them are modelled.
@@ -117,6 +118,46 @@ Definition set_find (k : node) (els : list node) : node :=
   match find (fun e => node_eq e k) els with Some e => e | None => none_node end.
 
 Definition key_val (k : node) : pyval := match k with NLeaf _ v => v | _ => PNone end.
+
+(* Differ._same_data: the comparison of two VALUES (the repaired code no longer
+   uses == for that): same YAML tag (`node.tag.value if hasattr(node, "tag")
+   else None` on both sides) and
+   - two TaggedScalars: their .value texts;
+   - two CommentedMaps: same size, every key of the left is `in` the right
+     (Python key lookup: [map_get]) with the same data under it;
+   - two CommentedSeqs: same length, element-wise;
+   - anything else: Python == ([node_eq]: plain scalars, sets, kind clashes). *)
+Definition opt_str_eqb (a b : option string) : bool :=
+  match a, b with
+  | None, None => true
+  | Some x, Some y => String.eqb x y
+  | _, _ => false
+  end.
+
+Fixpoint val_eq (a b : node) {struct a} : bool :=
+  opt_str_eqb (tag (node_info a)) (tag (node_info b)) &&
+  match a, b with
+  | NLeaf i v, NLeaf j w => if is_tagged i && is_tagged j then py_eq v w else leaf_eq i v j w
+  | NMap _ kvs, NMap _ kvs' =>
+      Nat.eqb (List.length kvs) (List.length kvs') &&
+      (fix go (l : list (node * node)) : bool :=
+         match l with
+         | [] => true
+         | kv :: r =>
+             match map_get (fst kv) kvs' with
+             | Some v' => val_eq (snd kv) v'
+             | None => false
+             end && go r
+         end) kvs
+  | NSeq _ els, NSeq _ els' =>
+      Nat.eqb (List.length els) (List.length els') &&
+      (fix go (l l' : list node) {struct l} : bool :=
+         match l, l' with
+         | x :: r, y :: r' => val_eq x y && go r r'
+         | _, _ => true
+         end) els els'
+  | _, _ => node_eq a b
+  end.
 
 (* ------------------------------------------------------------------ *)
 (* YAMLPath construction: `original` setter, separator inference, append,
@@ -284,7 +325,7 @@ Fixpoint sync_value_go (lhs : list (nat * node)) (red : list (nat * node)) : lis
   match lhs with
   | [] => leftover red
   | (li, le) :: rest =>
-      match extract_first (fun p => node_eq (snd p) le) red with
+      match extract_first (fun p => val_eq (snd p) le) red with
       | Some ((ri, re), red') => (Some li, le, Some ri, re) :: sync_value_go rest red'
       | None => (Some li, le, None, none_node) :: sync_value_go rest red
       end
@@ -303,7 +344,7 @@ Definition key_match (c : dcfg) (r : node) (key_attr : node) (le : node) (p : na
   match node_map_items re, node_map_items le with
   | Some rkvs, Some lkvs =>
       match map_get use_key rkvs, map_get use_key lkvs with
-      | Some rv, Some lv => node_eq rv lv
+      | Some rv, Some lv => val_eq rv lv
       | _, _ => false
       end
   | _, _ => false
@@ -346,10 +387,12 @@ Section Diff.
   Definition del_entry (path : string) (l : loc) (v : node) : entry := mkentry ADelete path l v none_node.
   Definition add_entry (path : string) (l : loc) (v : node) : entry := mkentry AAdd path l none_node v.
   Definition cmp_entry (path : string) (l : loc) (a b : node) : entry :=
-    mkentry (if node_eq a b then ASame else AChange) path l a b.
+    mkentry (if val_eq a b then ASame else AChange) path l a b.
 
-  (* _purge_document *)
-  Definition purge (path : string) (ploc : loc) (data : node) (acc : list entry) : list entry :=
+  (* _purge_document.  [root] = the keyword is_root: only at the document root
+     does None mean "no document"; a null that has a parent is deleted / added
+     like any other scalar *)
+  Definition purge (path : string) (ploc : loc) (data : node) (root : bool) (acc : list entry) : list entry :=
     match data with
     | NMap _ kvs =>
         rev (map (fun kv => del_entry (path_add_key path (fst kv)) (ploc ++ [RKey (key_val (fst kv))]) (snd kv)) kvs) ++ acc
@@ -357,11 +400,11 @@ Section Diff.
         rev (map (fun ie => del_entry (path_add_idx path (Some (fst ie))) (ploc ++ [RIdx (fst ie)]) (snd ie)) (enumerate els)) ++ acc
     | NSet _ els =>
         rev (map (fun e => del_entry (path_add_key path e) (ploc ++ [RMember (key_val e)]) e) els) ++ acc
-    | NLeaf _ _ => if is_none data then acc else del_entry path ploc data :: acc
+    | NLeaf _ _ => if is_none data && root then acc else del_entry path ploc data :: acc
     end.
 
   (* _add_everything *)
-  Definition add_everything (path : string) (ploc : loc) (data : node) (acc : list entry) : list entry :=
+  Definition add_everything (path : string) (ploc : loc) (data : node) (root : bool) (acc : list entry) : list entry :=
     match data with
     | NMap _ kvs =>
         rev (map (fun kv => add_entry (path_add_key path (fst kv)) (ploc ++ [RKey (key_val (fst kv))]) (snd kv)) kvs) ++ acc
@@ -369,20 +412,13 @@ Section Diff.
         rev (map (fun ie => add_entry (path_add_idx path (Some (fst ie))) (ploc ++ [RIdx (fst ie)]) (snd ie)) (enumerate els)) ++ acc
     | NSet _ els =>
         rev (map (fun e => add_entry (path_add_key path e) (ploc ++ [RMember (key_val e)]) e) els) ++ acc
-    | NLeaf _ _ => if is_none data then acc else add_entry path ploc data :: acc
+    | NLeaf _ _ => if is_none data && root then acc else add_entry path ploc data :: acc
     end.
 
   (* _diff_scalars (ignore_eyaml_values=True, the constructor default used by
      the harness; the EYAML decryption branch is not modelled) *)
   Definition diff_scalars (path : string) (ploc : loc) (l r : node) (acc : list entry) : list entry :=
     cmp_entry path ploc l r :: acc.
-
-  Definition opt_str_eqb (a b : option string) : bool :=
-    match a, b with
-    | None, None => true
-    | Some x, Some y => String.eqb x y
-    | _, _ => false
-    end.
 
   (* _diff_dicts.  Python iterates the two key-set differences in set order
      (unspecified); the model uses document order and the correspondence
@@ -517,9 +553,12 @@ Section Diff.
     end.
 
   (* _diff_lists *)
-  Definition diff_lists (rec : rec_t) (path : string) (ploc : loc) (r : node)
+  Definition diff_lists (rec : rec_t) (path : string) (ploc : loc) (l r : node)
              (lels rels : list node) (parent : option node) (pref : pyval) (acc : list entry)
     : outcome (list entry) :=
+    if negb (opt_str_eqb (tag (node_info l)) (tag (node_info r))) then
+      Ok (add_entry path ploc r :: del_entry path ploc l :: acc)
+    else
     let nc : coords := (r, parent, pref) in
     match rels with
     | NMap _ _ :: _ => diff_aoh rec path ploc r lels rels nc acc
@@ -531,11 +570,14 @@ Section Diff.
              (parent : option node) (pref : pyval) (acc : list entry) : outcome (list entry) :=
     match l, r with
     | NMap _ lkvs, NMap _ rkvs => diff_dicts rec path ploc l r lkvs rkvs acc
-    | NSeq _ lels, NSeq _ rels => diff_lists rec path ploc r lels rels parent pref acc
+    | NSeq _ lels, NSeq _ rels => diff_lists rec path ploc l r lels rels parent pref acc
     | NSet _ lels, NSet _ rels => diff_sets rec path ploc l r lels rels acc
     | NLeaf _ _, NLeaf _ _ => Ok (diff_scalars path ploc l r acc)
     | _, _ =>
-        let a1 := add_everything path ploc r (purge path ploc l acc) in
+        (* is_root = not ("lhs_parent" in kwargs or "rhs_parent" in kwargs): every
+           caller but compare_to passes both parents *)
+        let root := match parent with None => true | Some _ => false end in
+        let a1 := add_everything path ploc r root (purge path ploc l root acc) in
         if Nat.eqb (List.length a1) (List.length acc)
         then Ok (mkentry AChange path ploc l r :: a1)
         else Ok a1
